@@ -2,6 +2,7 @@
 -- `./check --setup` builds this target and all drivers so that later check runs start from a warm cache.
 import UtapModel.Props.C02
 import UtapModel.Props.C03
+import UtapModel.Props.C03Query
 import UtapModel.Props.C18
 import UtapModel.Props.C18Float
 import UtapModel.Gen.PrinterWitness
